@@ -28,7 +28,8 @@ pub enum Outcome {
     /// Panics with a custom payload type.
     PanicCustom,
     /// The panic is raised on a helper thread and re-raised in the callable
-    /// (`thread::spawn(..).join()` + `resume_unwind`), `String` payload.
+    /// (`thread::spawn(..).join()` + `resume_unwind`); the payload is a boxed error
+    /// (`Box<dyn Error + Send + Sync>`), a fourth payload type.
     PanicOnThread,
 }
 
@@ -310,7 +311,11 @@ pub struct TW {
 impl cucumber::World for TW {
     type Error = String;
 
-    async fn new() -> Result<Self, String> {
+    // the constructor does its bookkeeping when `new()` is *called*, not when the returned
+    // future is first polled (a hand-written `fn new() -> impl Future`, as a user may write
+    // it): a call the runner makes without needing a World counts as a creation
+    #[allow(clippy::manual_async_fn)]
+    fn new() -> impl Future<Output = Result<Self, String>> {
         let (idx, gated, outcome) = HS.with(|h| {
             let mut h = h.borrow_mut();
             let idx = h.world_calls;
@@ -318,15 +323,15 @@ impl cucumber::World for TW {
             (idx, h.plan.gates.gated("world"), h.plan.world(idx))
         });
         log(LogKind::NewEnter(idx));
-        if gated {
-            gate(format!("world#{idx}")).await;
-        }
-        log(LogKind::NewExit(idx, outcome));
-        match outcome {
-            WOutcome::Ok => Ok(TW { id: idx, counter: 0, stamp: None }),
-            WOutcome::Err => Err(format!("world-err#{idx}")),
-            WOutcome::Panic => {
-                std::panic::panic_any(format!("world-panic#{idx}"))
+        async move {
+            if gated {
+                gate(format!("world#{idx}")).await;
+            }
+            log(LogKind::NewExit(idx, outcome));
+            match outcome {
+                WOutcome::Ok => Ok(TW { id: idx, counter: 0, stamp: None }),
+                WOutcome::Err => Err(format!("world-err#{idx}")),
+                WOutcome::Panic => std::panic::panic_any(format!("world-panic#{idx}")),
             }
         }
     }
@@ -374,7 +379,10 @@ fn throw(outcome: Outcome, key: &str, inv: usize) {
         Outcome::PanicCustom => std::panic::panic_any(CustomPayload(format!("{key}#{inv}"))),
         Outcome::PanicOnThread => {
             let msg = format!("boom {key}#{inv}");
-            let res = std::thread::spawn(move || std::panic::panic_any(msg)).join();
+            let res = std::thread::spawn(move || {
+                std::panic::panic_any(Box::<dyn std::error::Error + Send + Sync>::from(msg))
+            })
+            .join();
             if let Err(payload) = res {
                 std::panic::resume_unwind(payload);
             }
@@ -439,7 +447,7 @@ fn sync_mode() -> bool {
 
 /// The generic step function.
 pub fn step_fn(w: &mut TW, ctx: Context) -> LocalBoxFuture<'_, ()> {
-    let key = ctx.step.value.clone();
+    let key = crate::spec::strip_lead(&ctx.step.value).to_owned();
     if sync_mode() {
         let b = begin(key, Some(&mut *w), None);
         return Box::pin(finish(b, Some(w)));
